@@ -1538,7 +1538,7 @@ Definition step_nowrap (c : cfg) (t : tid) : Prop :=
 Lemma kinv_step c t : KInv c -> In t L -> step_nowrap c t -> KInv (step e c t).
 Proof.
   intros I Hin Hw. unfold step_nowrap in Hw.
-  destruct (t_pc (c_pool c t)) as [|q|q b|q b|q b got|q b got|q b got|q b got| |hm|hm] eqn:Hpc;
+  destruct (t_pc (c_pool c t)) as [|q|q b|q b|q b|q b got|q b got|q b got|q b got| |hm|hm] eqn:Hpc;
     try (destruct (k_wf c I t) as (Hok & _ & _); unfold kpc_ok in Hok; rewrite Hpc in Hok; contradiction).
   - destruct (t_todo (c_pool c t)) as [|o rest] eqn:Htodo.
     + rewrite step_idle_nil by assumption. exact I.
@@ -1563,7 +1563,7 @@ Lemma step_labels c t :
   KInv c -> nowrap (c_labels (step e c t)) -> nowrap (c_labels c) /\ step_nowrap c t.
 Proof.
   intros I. unfold step_nowrap.
-  destruct (t_pc (c_pool c t)) as [|q|q b|q b|q b got|q b got|q b got|q b got| |hm|hm] eqn:Hpc;
+  destruct (t_pc (c_pool c t)) as [|q|q b|q b|q b|q b got|q b got|q b got|q b got| |hm|hm] eqn:Hpc;
     try (destruct (k_wf c I t) as (Hok & _ & _); unfold kpc_ok in Hok; rewrite Hpc in Hok; contradiction).
   - destruct (t_todo (c_pool c t)) as [|o rest] eqn:Htodo.
     + rewrite step_idle_nil by assumption. auto.
@@ -1592,11 +1592,12 @@ Proof using.
   assert (forall c' sh ts l q pr, nowrap (c_labels (finish e c' t sh ts l q pr)) -> nowrap (c_labels c')) as Hfin.
   { intros c' sh ts l q pr. rewrite finish_labels. intros H. inversion H; assumption. }
   unfold step.
-  destruct (t_pc (c_pool c t)) as [|q|q b|q b|q b got|q b got|q b got|q b got| |hm|hm].
+  destruct (t_pc (c_pool c t)) as [|q|q b|q b|q b|q b got|q b got|q b got|q b got| |hm|hm].
   - destruct (t_todo (c_pool c t)); [auto|]. unfold call. destruct (call_res e (c_pool c t) o); apply Hcm.
   - destruct (e_kind e); first [apply Hfin|apply Hcm].
   - destruct (s_f (c_sh c)); first [apply Hfin|apply Hcm].
   - destruct (b =? s_y (c_sh c)); [apply Hcm|]. destruct (b <? s_y (c_sh c)); first [apply Hfin|apply Hcm].
+  - destruct (s_f (c_sh c)); first [apply Hfin|apply Hcm].
   - destruct (crashes_now e (c_sh c)); [apply Hcm|].
     destruct (q_mode q), (src_next e (c_sh c)); try apply Hcm;
       try (destruct (N.of_nat (length (n :: got)) =? q_n q); apply Hcm);
@@ -1621,7 +1622,7 @@ Lemma step_trace_shape c t :
     (evs = [] \/ (exists ev, evs = [ev]) \/ (exists r d o, evs = [ERet t r d; ECall t o])).
 Proof.
   intros I.
-  destruct (t_pc (c_pool c t)) as [|q|q b|q b|q b got|q b got|q b got|q b got| |hm|hm] eqn:Hpc;
+  destruct (t_pc (c_pool c t)) as [|q|q b|q b|q b|q b got|q b got|q b got|q b got| |hm|hm] eqn:Hpc;
     try (destruct (k_wf c I t) as (Hok & _ & _); unfold kpc_ok in Hok; rewrite Hpc in Hok; contradiction).
   - destruct (t_todo (c_pool c t)) as [|o rest] eqn:Htodo.
     + rewrite step_idle_nil by assumption. exists []. auto.
